@@ -1,5 +1,5 @@
 (* C13 - Over-long names are cut on a character boundary; over-long icons are dropped. *)
-From Ctap Require Import Base Schema Wire Utf8 Typed Procs Inst Tables Limits WireP TypedP FramingP Utf8P StrsP ObRequestSide FnShapes Shapes ObShapeStrings.
+From Ctap Require Import Base Schema Wire Utf8 Typed Procs Inst Tables Limits WireP TypedP FramingP Utf8P StrsP ObRequestSide FnShapes Shapes ObShapeStrings WellTyped LimitsP.
 Local Open Scope string_scope.
 Local Open Scope Z_scope.
 
@@ -70,6 +70,14 @@ Qed.
 Theorem c13_limits_generated : forallb (fun f => limits_hold (gen_env f)) all_feats = true.
 Proof. vm_compute. reflexivity. Qed.
 
+(* for EVERY input: what a member decoded through one of the two lossy helpers holds afterwards is absent, or
+   a text that is valid UTF-8 and at most the member's capacity long (64 for names, 128 for the icon) *)
+Theorem c13_lossy_members_always_bounded : forall e k fs fd,
+  txt_field_wf fs fd = true ->
+  (forall t, sound (fun v => within e k t v = true) (dec e k t)) ->
+  sound (fun v => member_within (within e k) false fd v = true) (dec_with (dec e k) fd).
+Proof. exact sound_dec_with. Qed.
+
 (* which helper decodes which member: regenerated deserialize_with attributes = specification *)
 Theorem c13_generated_conforms :
   forallb (fun f => request_side_conforms (gen_env f) (spec_env f)) all_feats = true.
@@ -97,3 +105,4 @@ Eval vm_compute in "ASSUMPTIONS c13_name_truncated". Print Assumptions c13_name_
 Eval vm_compute in "ASSUMPTIONS c13_limits_generated". Print Assumptions c13_limits_generated.
 Eval vm_compute in "ASSUMPTIONS c13_generated_conforms". Print Assumptions c13_generated_conforms.
 Eval vm_compute in "ASSUMPTIONS c13_modelled_functions_unchanged_strings". Print Assumptions c13_modelled_functions_unchanged_strings.
+Eval vm_compute in "ASSUMPTIONS c13_lossy_members_always_bounded". Print Assumptions c13_lossy_members_always_bounded.
